@@ -965,6 +965,7 @@ fn c12_ss(input: &Input, obs: &mut Obs) -> Result<(), Fail> {
     cfg.max_reqs = 5;
     cfg.max_body = 2500;
     cfg.expect = 0;
+    cfg.error_free = true;
     let mut stream = Vec::new();
     let mut notes = Notes::default();
     let nreq = 1 + s.below(5);
@@ -1159,6 +1160,7 @@ fn c12_socket(input: &Input, obs: &mut Obs) -> Result<(), Fail> {
     cfg.corrupt = 0;
     cfg.max_body = 1500;
     cfg.expect = 0;
+    cfg.error_free = true;
     let mut stream = Vec::new();
     let mut notes = Notes::default();
     for _ in 0..1 + s.below(4) {
